@@ -1,9 +1,9 @@
 /-
 Model of `pytoniq_core/tlb/transaction.py` (`MessageAny`, `CommonMsgInfo`, `InternalMsgInfo`,
 `ExternalMsgInfo`, `ExternalOutMsgInfo`), `tlb/block.py` (`CurrencyCollection`,
-`ExtraCurrencyCollection`), `tlb/account.py` (`StateInit`, `TickTock`), `tlb/utils.py` (`HashUpdate`),
-`tlb/custom/wallet.py` (`WalletV3Data`, `WalletV4Data`, `HighloadWalletData`, `WalletMessage.serialize`)
-and `tlb/custom/nft.py` (`NftItemData`), built on the Builder/Slice model (`BOp` / `SOp`).
+`ExtraCurrencyCollection`), `tlb/account.py` (`StateInit`, `TickTock`), built on the Builder/Slice model
+(`BOp` / `SOp`).  The wrappers of `tlb/utils.py` (`HashUpdate`), `tlb/custom/wallet.py`, `tlb/custom/nft.py` are in
+`Model/Wrappers.lean`.
 
 Conventions
 * `x.serialize()` followed by `builder.store_cell(x)` is `sub (xB …)`: the piece is built in its own
@@ -217,55 +217,5 @@ def deserializeCurrency (ops : CellOps R) (c : R) : Option (Currency R) :=
 /-- `StateInit.serialize`, `CurrencyCollection.serialize` as cells -/
 def serializeStateInit (ops : CellOps R) (s : StateInit R) : Option R := cellOf ops (stateInitB s)
 def serializeCurrency (ops : CellOps R) (c : Currency R) : Option R := cellOf ops (sub (currencyB c))
-
-/-! ### wrappers: `HashUpdate`, wallet data, NFT item data -/
-
-/-- `HashUpdate.serialize` : `store_bytes(b'\x72')`, two 32-byte hashes -/
-def hashUpdateB (old new : Bytes) : BOp R := storeBytes [0x72] ⊳ storeBytes old ⊳ storeBytes new
-
-/-- `HashUpdate.deserialize` -/
-def loadHashUpdate : SOp R (Bytes × Bytes) := do
-  let tag ← loadBytes 1
-  if tag.take 1 != [0x72] then SOp.fail else do
-    let o ← loadBytes 32
-    let n ← loadBytes 32
-    return (o, n)
-
-/-- `WalletV3Data.serialize` -/
-def walletV3B (seqno walletId : Int) (pk : Bytes) : BOp R :=
-  storeUint seqno 32 ⊳ storeUint walletId 32 ⊳ storeBytes pk
-
-def loadWalletV3 : SOp R (Int × Int × Bytes) := do
-  let s ← loadUint 32
-  let w ← loadUint 32
-  let pk ← loadBytes 32
-  return (s, w, pk)
-
-/-- `WalletV4Data.serialize` (`store_dict(plugins)` = `store_maybe_ref`) -/
-def walletV4B (seqno walletId : Int) (pk : Bytes) (plugins : Option R) : BOp R :=
-  storeUint seqno 32 ⊳ storeUint walletId 32 ⊳ storeBytes pk ⊳ storeMaybeRef plugins
-
-def loadWalletV4 : SOp R (Int × Int × Bytes × Option R) := do
-  let s ← loadUint 32
-  let w ← loadUint 32
-  let pk ← loadBytes 32
-  let p ← loadMaybeRef
-  return (s, w, pk, p)
-
-/-- `HighloadWalletData.serialize`: `old_queries` is NOT written (an empty `HashMap` is serialised
-    instead of `self.old_queries`) -- finding F23 -/
-def highloadB (walletId lastCleaned : Int) (pk : Bytes) : BOp R :=
-  storeUint walletId 32 ⊳ storeUint lastCleaned 64 ⊳ storeBytes pk ⊳ storeMaybeRef none
-
-/-- `NftItemData.serialize` -/
-def nftItemB (index : Int) (coll owner : Addr) (content : R) : BOp R :=
-  storeUint index 64 ⊳ storeAddress coll ⊳ storeAddress owner ⊳ storeRef content
-
-def loadNftItem : SOp R (Int × Addr × Addr × R) := do
-  let i ← loadUint 64
-  let c ← loadAddress
-  let o ← loadAddress
-  let r ← loadRef
-  return (i, c, o, r)
 
 end TonVerif.Model.Message
